@@ -97,7 +97,7 @@ PROPS = {
     "C08": instr([part("e1", "^TestC08E1$", 2500, 60000, steps=60, tsteps=90), part("e2", "^TestC08E2$", 350, 2000), part("long", "^TestC08L$", 40, 600)],
                  "Two engines. (e1) " + E1_RULE + "(e2) " + E2_RULE + "Oracle: at every quiescent point Size()/Count() == Range visits == successful Loads == model (maps), Count interval / exact after DeleteExpired / 0 after Clear (caches). " + LIN),
     "C09": instr([part("e1", "^TestC09$", 2500, 60000, steps=60, tsteps=90)], E1_RULE + "Generator weighted to constructors x boundary TTLs/defaults x GetWithExpiration/GetWithTTL/SetDefaultExpiration. Oracle: exact instants from the TTL model."),
-    "C16": instr([part("stall", "^TestC16$", 400, 2000)],
+    "C16": instr([part("stall", "^TestC16$", 400, 20000)],
                  "Cases are generated programs of one modifying call W (every mutator, Clear, Range, grow-triggering insert and shrink-triggering delete via fill steering, "
                  "Compute/GetOrCompute/LoadOrCompute whose user function calls vs.Park()) and 1-3 lookups R (Load, hit path of LoadOrStore/LoadOrCompute on a stable key, "
                  "Get, GetWithExpiration, GetWithTTL, Size/Count) on the same key, bucket mates (density / colliding hashers) and unrelated keys, present-and-unexpired or absent; "
